@@ -21,6 +21,7 @@
 //!   cutfired <dir>                           an armed byte-offset cut fired
 //!   flipfired <dir>                          an armed byte corruption was applied
 //!   quiesced <rounds> | timeout              outcome of `quiesce`
+//!   qerr <count> <what>                      (before `timeout`) why the attempts of `quiesce` failed
 //!   db <type> <i> <value> <flags> <time>     Database::get on the outstation after quiescence
 //!   seen <type> <i> <value> <flags> <time>   last value the ReadHandler received (or `seen <type> <i> never`)
 //!   panic <text>                             a panic anywhere in the process during this script
@@ -169,7 +170,8 @@ impl Canon for AnalogOutputStatus {
 
 struct HState {
     last: HashMap<(&'static str, u16), String>,
-    deliveries: u64,
+    /// number of event objects handed to the handler so far
+    events: u64,
 }
 
 struct Handler {
@@ -184,7 +186,9 @@ impl Handler {
         {
             let mut st = self.state.lock().unwrap();
             st.last.insert((ty, index), canon.clone());
-            st.deliveries += 1;
+            if info.is_event {
+                st.events += 1;
+            }
         }
         self.trace.log(format!("h {} {} {} {}", ty, index, canon, kind));
     }
@@ -864,7 +868,7 @@ async fn run_script(s: &Script, trace: Trace) {
     acfg.keep_alive_timeout = None;
     acfg.auto_time_sync = None;
 
-    let hstate = Arc::new(Mutex::new(HState { last: HashMap::new(), deliveries: 0 }));
+    let hstate = Arc::new(Mutex::new(HState { last: HashMap::new(), events: 0 }));
     let handler = Handler { trace: trace.clone(), state: hstate.clone() };
     let mut assoc = match master
         .add_association(out_addr, acfg, Box::new(handler), Box::new(AssocHandler), Box::new(AssocInfo))
@@ -968,26 +972,55 @@ async fn run_script(s: &Script, trace: Trace) {
                 let start = Instant::now();
                 let mut rounds = 0u32;
                 let mut done = false;
+                // why the attempts failed (kept for the `timeout` case): error text -> count
+                let mut errors: Vec<(String, u32)> = Vec::new();
+                let mut note = |e: String| match errors.iter_mut().find(|x| x.0 == e) {
+                    Some(x) => x.1 += 1,
+                    None => errors.push((e, 1)),
+                };
                 while start.elapsed() < limit {
                     rounds += 1;
                     let left = limit.saturating_sub(start.elapsed());
                     // an integrity poll that starts now, i.e. after the last update / command / cut
                     let r = tokio::time::timeout(left, assoc.read(ReadRequest::class_scan(Classes::all()))).await;
-                    if !matches!(r, Ok(Ok(()))) {
-                        tokio::time::sleep(Duration::from_millis(20)).await;
-                        continue;
+                    match r {
+                        Ok(Ok(())) => {}
+                        Ok(Err(e)) => {
+                            note(format!("integrity:{:?}", e).replace(' ', ""));
+                            tokio::time::sleep(Duration::from_millis(20)).await;
+                            continue;
+                        }
+                        Err(_) => {
+                            note("integrity:never-completed".to_string());
+                            continue;
+                        }
                     }
-                    let before = hstate.lock().unwrap().deliveries;
+                    let before = hstate.lock().unwrap().events;
                     let left = limit.saturating_sub(start.elapsed());
                     let r = tokio::time::timeout(left, assoc.read(ReadRequest::class_scan(Classes::class123()))).await;
-                    if !matches!(r, Ok(Ok(()))) {
-                        tokio::time::sleep(Duration::from_millis(20)).await;
-                        continue;
+                    match r {
+                        Ok(Ok(())) => {}
+                        Ok(Err(e)) => {
+                            note(format!("eventpoll:{:?}", e).replace(' ', ""));
+                            tokio::time::sleep(Duration::from_millis(20)).await;
+                            continue;
+                        }
+                        Err(_) => {
+                            note("eventpoll:never-completed".to_string());
+                            continue;
+                        }
                     }
-                    // the event poll (and everything else since the integrity poll) delivered nothing
-                    if hstate.lock().unwrap().deliveries == before {
+                    // the event poll (and everything else since the integrity poll completed) delivered
+                    // no event; static data of automatic integrity polls in between does not count
+                    if hstate.lock().unwrap().events == before {
                         done = true;
                         break;
+                    }
+                    note("eventpoll:delivered-events".to_string());
+                }
+                if !done {
+                    for (e, n) in &errors {
+                        trace.log(format!("qerr {} {}", n, e));
                     }
                 }
                 let _ = master.disable().await;
